@@ -1638,7 +1638,23 @@ fn run_e2e(rt: &tokio::runtime::Runtime, rng: &mut Rng, report: &mut Report, n_s
             continue;
         }
         let nb = rng.range_usize(1, 4);
-        let batches: Vec<Batch> = (0..nb).map(|_| e2e_batch(rng, report)).collect();
+        let mut batches: Vec<Batch> = (0..nb).map(|_| e2e_batch(rng, report)).collect();
+        // at least one flushed row after the merge point, so that a lost batch is visible
+        for _ in 0..10 {
+            if batches.iter().any(|b| b.rows > 0) {
+                break;
+            }
+            batches.push(e2e_batch(rng, report));
+        }
+        if let Some(b) = batches.iter_mut().find(|b| b.rows > 0) {
+            for (n, c) in b.cols.iter_mut() {
+                if n == "timestamp" {
+                    if let Col::I(v) = c {
+                        v[0] = Some(FUTURE + 7);
+                    }
+                }
+            }
+        }
         // clause over the fixed schema, inside the fragment and outside the known class
         let mut wh = None;
         if with_where {
@@ -1668,6 +1684,12 @@ fn run_e2e(rt: &tokio::runtime::Runtime, rng: &mut Rng, report: &mut Report, n_s
                 report.bump(&format!("e2e.flush_{:?}", run.timing));
                 if run.hist_chunks > 0 {
                     report.bump("e2e.with_stored_history_and_real_ingester_flushes");
+                }
+                if !run.expect.is_empty() {
+                    report.bump("e2e.nonempty_expectation");
+                }
+                if run.hist_batches > 100 && !run.expect.is_empty() {
+                    report.bump(if run.legacy { "e2e.backpressured_legacy_nonempty" } else { "e2e.backpressured_filtered_nonempty" });
                 }
                 if run.hist_batches > 100 {
                     report.bump("e2e.historical_result_over_100_batches");
